@@ -170,6 +170,12 @@ func (h *Host) Ctx(now time.Time) sdk.Context {
 	return h.C.ReadCtx().WithBlockTime(now)
 }
 
+// ForkW branches a context and returns the function that merges the branch back into its parent.
+func ForkW(ctx sdk.Context, now time.Time) (sdk.Context, func()) {
+	c, w := ctx.CacheContext()
+	return c.WithBlockTime(now), w
+}
+
 // Fork branches a context.
 func Fork(ctx sdk.Context, now time.Time) sdk.Context {
 	c, _ := ctx.CacheContext()
